@@ -33,7 +33,8 @@ type C17Case struct {
 	Partition []int  `json:"partition,omitempty"` // sizes of successive Add calls (cyclic)
 	N2        int    `json:"n2,omitempty"`        // a smaller sketch size
 	// distance
-	Seqs2 []gen.B `json:"seqs2,omitempty"`
+	Seqs2  []gen.B `json:"seqs2,omitempty"`
+	NExact bool    `json:"n_exact,omitempty"` // sketch size = the smaller number of distinct k-mers
 	// jaccard
 	J1 gen.F `json:"j1,omitempty"`
 	J2 gen.F `json:"j2,omitempty"`
@@ -76,7 +77,7 @@ func genC17(t *rapid.T, thorough bool) C17Case {
 		return c
 	}
 	// distance: a second set that is identical in content, related, or unrelated
-	switch rapid.IntRange(0, 3).Draw(t, "relation") {
+	switch rapid.IntRange(0, 4).Draw(t, "relation") {
 	case 0: // same content, other strand / order
 		for i := len(c.Seqs) - 1; i >= 0; i-- {
 			s := c.Seqs[i]
@@ -89,6 +90,14 @@ func genC17(t *rapid.T, thorough bool) C17Case {
 		for _, s := range c.Seqs {
 			c.Seqs2 = append(c.Seqs2, genRelated(t, s, []byte(alpha)))
 		}
+	case 4: // same length, a few substitutions, sketch size = number of k-mers (exactly full, nothing evicted)
+		one := genDNAOver(t, "ACGT", 60, "one")
+		other := bytes.Clone(one)
+		for e := rapid.IntRange(0, 3).Draw(t, "nsub"); e > 0 && len(other) > 0; e-- {
+			other[rapid.IntRange(0, len(other)-1).Draw(t, "subpos")] = rapid.SampledFrom([]byte("ACGT")).Draw(t, "subbase")
+		}
+		c.Seqs, c.Seqs2, c.NExact = []gen.B{one}, []gen.B{gen.B(other)}, true
+		c.K = rapid.IntRange(4, 9).Draw(t, "kexact")
 	case 2: // disjoint k-mer content: AT-only versus CG-only
 		c.Seqs = []gen.B{genDNAOver(t, "AT", maxLen, "at")}
 		c.Seqs2 = []gen.B{genDNAOver(t, "CG", maxLen, "cg")}
@@ -300,6 +309,20 @@ func checkC17(c C17Case, o *Obs) error {
 			return fmt.Errorf("building with %d successive Add calls (partition %v) gives %v, Sequences gives %v (seqs %q, n=%d, k=%d)", adds, c.Partition, v, base, c.Seqs, c.N, c.K)
 		}
 	}
+	// a sketch started with Sequences on the first sequences and extended with Add
+	if len(seqs) >= 2 {
+		cut := 1 + c.Rot%(len(seqs)-1)
+		var mh *minhash.MinHash[uint64]
+		if p := catch(func() {
+			mh = mash.Sequences(c.N, c.K, toSlices(c.Seqs)[:cut]...)
+			mash.Add(mh, c.K, toSlices(c.Seqs)[cut:]...)
+		}); p != nil {
+			return fmt.Errorf("Sequences followed by Add panicked: %v", p)
+		}
+		if v := mh.View(); !slices.Equal(v, base) {
+			return fmt.Errorf("Sequences(n=%d,k=%d) on the first %d sequences followed by Add of the rest gives %v, one call gives %v (seqs %q)", c.N, c.K, cut, v, base, c.Seqs)
+		}
+	}
 	// a smaller sketch is the tail of the larger one
 	if n2 := c.N2; n2 >= 1 && n2 < c.N {
 		small, err := sketchView(n2, c.K, seqs)
@@ -330,6 +353,10 @@ func checkDistance(c C17Case, o *Obs) error {
 		return nil
 	}
 	n := 1 + (c.N-1)%full // both sketches are full by construction
+	if c.NExact {
+		n = full // exactly full: as many distinct k-mers as the sketch holds
+		o.Class("exactly full sketches")
+	}
 	var mhA, mhB *minhash.MinHash[uint64]
 	var dAB, dBA, dAA float64
 	if p := catch(func() {
